@@ -311,8 +311,9 @@ def d2_fields(chk, F):
         for fld, src in want[ty].items():
             t = full(resolve(ff, d[fld]))
             others = [o for o in (".name", ".quantity", ".note", ".alias") if o != src]
-            ok = src + ")" in t or t.endswith(src) or src + ")," in t
-            ok = ok and not any(o + ")" in t for o in others)
+            # which fields of the core component are in the lineage (first field after the parameter, downcasts ignored)
+            pf = {m_.group(1) for m_ in (re.match(r"param:\w+(\.name|\.quantity|\.note|\.alias)", l) for l in leaves(resolve(ff, d[fld]))) if m_}
+            ok = src in pf and not (pf & set(others))
             chk.expect(ok, "C19.D2-fields", f"{ty}.{fld}", f"{ff.file}:{s.get('line')}", f"bindings {ty}.{fld} must come from the core {src[1:]}; it is {t[:90]}",
                        sample=f"{ty}.{fld} ← core{src}")
             if fld != "amount":
@@ -320,6 +321,11 @@ def d2_fields(chk, F):
             if fld == "amount":
                 clos = [n[2] for n in walk(resolve(ff, d[fld])) if n[0] == "agg" and n[1] == "closure"]
                 okc = any(calls_to(F.funcs[c], "extract_amount") for c in clos if c in F.funcs)
+                if not okc:
+                    # through a helper (`optional_amount(&c.quantity)`) or with the method passed as a function value
+                    from cfgq import calls_reaching
+                    rb = set(calls_reaching(F, ff, "extract_amount"))
+                    okc = any(n[0] == "call" and n[3] in rb for n in walk(resolve(ff, d[fld])))
                 chk.expect(okc, "C19.D2-fields", f"{ty}.amount via extract_amount", f"{ff.file}:{s.get('line')}", "amount must be produced by extract_amount", sample=f"{ty}.amount ← q.extract_amount()")
     seen = 0
     for k, f in F.funcs.items():
@@ -330,6 +336,8 @@ def d2_fields(chk, F):
                 u = full(resolve(ff, d["units"]))
                 isq = "Quantity" in k
                 okq = q.startswith("model::extract_value(") and (("value(" in q) if isq else ("self" in q))
+                # the Quantity impl may delegate to the Value impl (checked on its own) and take over its `quantity`
+                okq = okq or (isq and re.search(r"Amountable>::extract_amount\(.*value\(.*\)\)\.quantity$", q) is not None)
                 oku = ("unit(" in u) if isq else (u == "Option::None{}")
                 chk.expect(okq and oku, "C19.D2-fields", f"extract_amount|{'Quantity' if isq else 'Value'}", f"{ff.file}:{s.get('line')}",
                            f"extract_amount builds quantity={q[:60]}, units={u[:60]}", sample=f"quantity ← extract_value(value), units ← {'unit()' if isq else 'None'}")
